@@ -137,6 +137,17 @@ def public_call(seq, op):
     return seq, op
 
 
+def public_durations(seq):
+    """What the two public duration queries answer (each on its own deep copy), in ticks; -1 = the query raised."""
+    out = []
+    for fn in (lambda s: s.get_sequence_duration(), lambda s: s.get_sequence_duration_relation() * 24):
+        try:
+            out.append(P._int(fn(copy.deepcopy(seq))))
+        except Exception:
+            out.append(-1)
+    return out
+
+
 def edit_in_turn(m):
     """Order-preserving in-turn edit of the yielded message."""
     if m.message_type in (MessageType.NOTE_ON, MessageType.NOTE_OFF):
@@ -233,6 +244,7 @@ def execute(case):
                 except Exception:
                     exp2 = {"readable": False, "abs": [], "rel": []}
             post = P.views(real.seq)
+            post["qdur"] = public_durations(real.seq)
             if f in ("iter_edit",):
                 # during a generator turn the iterated view IS the content: the expected content after an in-turn
                 # edit is what the iterated view now shows (read on a deep copy)
